@@ -39,12 +39,12 @@ fn uniform_auth(u: &[Felt], height: usize, idx: &[u64]) -> Vec<Felt> {
 fn to_u64(f: &Felt) -> u64 { f.to_biguint().try_into().unwrap() }
 
 pub fn forge_zero(splice: bool, n_queries: u64, pow_bits: u8) -> Result<StarkProof, String> {
-    forge_zero_knobs(splice, n_queries, pow_bits, None, None, None)
+    forge_zero_knobs(splice, n_queries, pow_bits, None, None, None, None)
 }
 /// the same forger with SHAPE knobs: how many FRI inner-layer commitments are sent, how many last-layer coefficients, how many layer
 /// witnesses — everything else (transcript replay, proof of work, decommitments) stays consistent with what IS sent, so that a malformed
 /// shape is carried as deep into the pipeline as the verifier lets it (a mutated honest proof dies at the proof of work instead)
-pub fn forge_zero_knobs(splice: bool, n_queries: u64, pow_bits: u8, inner_sent: Option<usize>, last_len_k: Option<usize>, layers_sent: Option<usize>) -> Result<StarkProof, String> {
+pub fn forge_zero_knobs(splice: bool, n_queries: u64, pow_bits: u8, inner_sent: Option<usize>, last_len_k: Option<usize>, layers_sent: Option<usize>, comp_cols: Option<usize>) -> Result<StarkProof, String> {
     let mut pi = swiftness_air::fixtures::public_input::get();
     let n = pi.main_page.0.len();
     pi.main_page.0[n - 1].value = Felt::from(0xdeadbeefu64); // FALSE statement: a different program output
@@ -54,7 +54,11 @@ pub fn forge_zero_knobs(splice: bool, n_queries: u64, pow_bits: u8, inner_sent: 
     let h = to_u64(&(cfg.log_trace_domain_size + cfg.log_n_cosets)) as usize;
     let m = <Layout as LayoutTrait>::MASK_SIZE;
     let (c1, c2) = (Layout::NUM_COLUMNS_FIRST, Layout::NUM_COLUMNS_SECOND);
-    let (u1, u2, u3) = (uniform_nodes(c1, h), uniform_nodes(c2, h), uniform_nodes(2, h));
+    // (comp_cols: the composition table's column count is the one count config validation does not pin — a consistent table of that width
+    // decommits fine and reaches the length checks of the DEEP evaluation)
+    let cc = comp_cols.unwrap_or(2);
+    cfg.composition.n_columns = Felt::from(cc as u64);
+    let (u1, u2, u3) = (uniform_nodes(c1, h), uniform_nodes(c2, h), uniform_nodes(cc, h));
     let steps: Vec<usize> = cfg.fri.fri_step_sizes.iter().map(|s| to_u64(s) as usize).collect();
     let mut fri_u = vec![]; let mut hh = h;
     for i in 1..steps.len() { hh -= steps[i]; fri_u.push((uniform_nodes(1 << steps[i], hh), hh, steps[i])); }
@@ -108,7 +112,7 @@ pub fn forge_zero_knobs(splice: bool, n_queries: u64, pow_bits: u8, inner_sent: 
         witness: StarkWitness {
             traces_decommitment: swiftness_air::trace::Decommitment { original: TD { values: vec![Felt::ZERO; nq * c1] }, interaction: TD { values: vec![Felt::ZERO; nq * c2] } },
             traces_witness: swiftness_air::trace::Witness { original: tw(&u1, h, &q), interaction: tw(&u2, h, &q) },
-            composition_decommitment: TD { values: vec![Felt::ZERO; nq * 2] },
+            composition_decommitment: TD { values: vec![Felt::ZERO; nq * cc] },
             composition_witness: tw(&u3, h, &q),
             fri_witness: FriWitness { layers },
         },
@@ -471,7 +475,7 @@ pub fn run(op: &str, a: &[&str]) -> Option<Out> {
         // forge_zero_knobs <splice> <nq> <pow> <inner_sent|-> <last_len|-> <layers_sent|->
         "forge_zero_knobs" => {
             let k = |x: &str| if x == "-" { None } else { Some(u64h(x) as usize) };
-            match forge_zero_knobs(a[0] == "1", u64h(a[1]), u64h(a[2]) as u8, k(a[3]), k(a[4]), k(a[5])) {
+            match forge_zero_knobs(a[0] == "1", u64h(a[1]), u64h(a[2]) as u8, k(a[3]), k(a[4]), k(a[5]), if a.len() > 6 { k(a[6]) } else { None }) {
                 Ok(p) => Out::Ok(crate::ops_proof::fmt_proof(&p)), Err(e) => Out::Err(e) } }
         "forge_zero_solve" => match forge_zero_solve(u64h(a[0]) as usize, u64h(a[1]) as usize, u64h(a[2]), u64h(a[3]) as u8) {
             Ok(p) => Out::Ok(crate::ops_proof::fmt_proof(&p)), Err(e) => Out::Err(e) },
